@@ -194,3 +194,16 @@ VARIANTS += [
       "((self._instance.lower_bound_bins - 1)",
       "((self._instance.lower_bound_bins - 2)", "silent"),
 ]
+
+VARIANTS += [
+    V("small-scratch-32-bit",
+      "moptipyapps/binpacking2d/objectives/bin_count_and_small.py",
+      "np.empty(instance.n_items, int)",
+      "np.empty(instance.n_items, np.int32)", "fire", "D2.3",
+      "seed C02-small-scratch-32-bit"),
+    V("silent-small-scratch-int64",
+      "moptipyapps/binpacking2d/objectives/bin_count_and_small.py",
+      "np.empty(instance.n_items, int)",
+      "np.empty(instance.n_items, dtype=np.int64)", "silent", "",
+      "explicit 64-bit type"),
+]
